@@ -8,6 +8,20 @@ x 2 endpoints in each; every state is exported with the verdict sets.  harness/c
 std crypto/x509 (two epochs, mixed key algorithms) and replays the cases into ctfe.ValidateChain /
 IsPrecertificate and into add-chain / add-pre-chain of configured instances.
 
+Hierarchies with look-alikes: certificates carry key identifiers (hints of the search, no part of Links); the world has
+DECOYS - self-signed CAs that share the key and identifier of a CA of the hierarchy under another name, or its name with
+another key - and decoy pools that pair them with a root under which the submission is in order, so that the candidate
+lookup (by identifier first, then by name: Candidates) has to pass over a trusted certificate that does not link and go
+on through the other trusted and the submitted certificates.  Pools are materialized in both orders, as one roots file
+and as one file per certificate.
+
+Options as configured (spec/ctfe/MCChainAdmissionCfg.tla): the option table speaks of the filter; an operator writes
+lists (ext_key_usages, reject_extensions).  Every list of up to three (thorough: four) EKU names over five - "any"
+first / in the middle / last / alone / repeated, duplicates, every order - and every list of up to two forbidden
+extensions is a state; laws ListShape / order-freedom / AnyOpens; the rows are appended to the option table and replayed
+through configured instances (LogConfig -> ValidateLogConfig -> instance set-up) and through ValidateLogConfig +
+NewCertValidationOpts + ValidateChain.
+
 History layer (spec/ctfe/ChainAdmissionLog.tla): a log serving many requests while the clock advances; the law is that
 admission is a FUNCTION of the request, the configuration at set-up and the clock at the instant of that request
 (JudgedAlone, NothingRemembered, ConfigFixed, Repeatable, WhenShape).  Checked exhaustively on a small instance, refuted
@@ -38,7 +52,13 @@ ASSUME = [
     "NAMED CLAUSE PinnedTime: options handed to ValidateChain may carry a time and expiry is then judged at that instant; "
     "a log's configuration has no such field, every request to a log is judged at the instant of that request",
     "histories are random walks (not exhaustive): three logs, 18 entries, chains = base chains and their single perturbations",
-    "forbidden-extension and 'Any' EKU configurations are reachable through an instance only (NewCertValidationOpts has no parameter for them)",
+    "forbidden-extension configurations are reachable through an instance only (NewCertValidationOpts has no parameter for them); "
+    "'Any' EKU configurations through an instance and through ValidateLogConfig, whose key usages are handed to NewCertValidationOpts",
+    "NAMED CLAUSE KeyIdsAgree: key identifiers are hints and take no part in the admission predicate; the hierarchies are those "
+    "of RFC 5280 s4.2.1.2 (a certificate's authority key identifier is the subject key identifier of the certificates holding its "
+    "signer's key; several certificates may share a key and identifier under different names, or a name under different keys). "
+    "Hierarchies where an authority key identifier points at another key than the signer's are not exercised",
+    "configured lists use names the front end knows (unknown names are refused at configuration time: C15)",
 ]
 
 
@@ -58,9 +78,65 @@ def model(ctx, cfg):
         raise Infra("vacuous model: %d of %d chains in order, leaf kinds %s" % (len(ok), len(cases), sorted(kinds)))
     if not any(c["admC"] for c in ok) or not any(c["admP"] for c in ok):
         raise Infra("vacuous model: no admitted case")
-    ctx.log("%s: %d states (%d chains in order), perturbations %s, %d option combinations" % (
-        cfg, len(cases), len(ok), sorted(tags), len(tables["opts"])))
+    # chains in order whose search has to pass over a trusted look-alike: at the leaf, in the middle, at the last certificate
+    decoy = [c for c in ok if c["decoy"]]
+    dpools = set(c["T"] for c in decoy)
+    if len(decoy) < 40 or len(dpools) < 4 or not any(c["admP"] for c in decoy):
+        raise Infra("vacuous model: %d chains in order with a decoy in the trusted pool (pools %s)" % (len(decoy), sorted(dpools)))
+    ctx.log("%s: %d states (%d chains in order, %d of them past a decoy in the trusted pool), perturbations %s, %d option combinations" % (
+        cfg, len(cases), len(ok), len(decoy), sorted(tags), len(tables["opts"])))
     return cases, tables
+
+
+def cfg_model(ctx):
+    """The options as configured: one CFG record per configuration as written, with the verdicts on the chains of the model."""
+    cfg = ctx.pick("ChainAdmissionCfg.cfg", "ChainAdmissionCfgBig.cfg")
+    r = ctx.tlc("ctfe", "MCChainAdmissionCfg", cfg, workers=1, timeout=1500)
+    recs = r.records.get("CFG", [])
+    if len(recs) != r.distinct or not recs:
+        raise Infra("expected one CFG record per state, got %d for %d states" % (len(recs), r.distinct))
+    # (the rows of the quick tier are a prefix of those of the thorough tier: stable indices for replay)
+    recs.sort(key=lambda x: (len(x["row"]["ekuList"]) > 3, x["row"]["rest"], len(x["row"]["ekuList"]), x["row"]["ekuList"], x["row"]["extList"]))
+    # vacuity: "any" at every position among other names, and the position must matter to a log that read the list naively
+    pos = set()
+    for x in recs:
+        l = x["row"]["ekuList"]
+        if "any" in l and len(l) > 1:
+            i = l.index("any")
+            pos.add("first" if i == 0 else "last" if i == len(l) - 1 else "middle")
+    # ... a leaf with the server EKU admitted under a list that names "any" and otherwise only EKUs the leaf does not have
+    opened = sum(1 for x in recs if "any" in x["row"]["ekuList"] and set(x["row"]["ekuList"]) - {"any", "server"} and
+                 "server" not in x["row"]["ekuList"] and any(c["ch"][0] == "L2" and c["v"]["admC"] for c in x["chains"]))
+    if pos != {"first", "middle", "last"} or not opened or not any(x["row"]["extList"] for x in recs):
+        raise Infra("vacuous configuration model: positions of any %s" % sorted(pos))
+    ctx.log("%s: %d configurations as written (%d with 'any', %d with forbidden extensions) x %d chains" % (
+        cfg, len(recs), sum("any" in x["row"]["ekuList"] for x in recs), sum(bool(x["row"]["extList"]) for x in recs), len(recs[0]["chains"])))
+    return recs
+
+
+def merge(tables, cases, recs):
+    """Append the configurations as written to the option table and their chains to the cases (verdict sets over the
+    appended rows only: Case.rows)."""
+    nbase = len(tables["opts"])
+    tables["nbase"] = nbase
+    extra = []
+    for j, rec in enumerate(recs):
+        k = nbase + j + 1
+        row = dict(rec["row"])
+        row["spelled"] = True
+        tables["opts"].append(row)
+        for i, cv in enumerate(rec["chains"]):
+            if j == 0:
+                extra.append({"ch": cv["ch"], "T": cv["T"], "tags": ["as-configured"], "ok": cv["ok"], "kind": cv["kind"], "paths": cv["paths"],
+                              "decoy": False, "val": [], "admC": [], "admP": [], "rows": []})
+            e = extra[i]
+            if e["ch"] != cv["ch"]:
+                raise Infra("configuration records list different chains")
+            e["rows"].append(k)
+            for f in ("val", "admC", "admP"):
+                if cv["v"][f]:
+                    e[f].append(k)
+    return cases + extra
 
 
 def log_model(ctx):
@@ -126,6 +202,7 @@ def run(ctx, replay=None):
             data = json.load(f).get("replay") or {}
     if "walk" in data or "case" in data:
         _, tables = model(ctx, "MCChainAdmission.cfg")
+        merge(tables, [], cfg_model(ctx))
         tpath = ctx.write_ndjson("tables.json", [tables])
         if "walk" in data:
             # one history; a difference in the in-order phase is asserted at that request only
@@ -136,11 +213,15 @@ def run(ctx, replay=None):
                                                     "VERIF_ONLY_OPT": data.get("opt", 1)})
         return
     # (a replay file without a case or a walk - a race report, a modified pool - is replayed by the whole run)
-    with ThreadPoolExecutor(max_workers=2) as pool:
+    with ThreadPoolExecutor(max_workers=3) as pool:
         fm = pool.submit(model, ctx, ctx.pick("MCChainAdmission.cfg", "MCChainAdmission2.cfg"))
         fl = pool.submit(log_model, ctx)
+        fc = pool.submit(cfg_model, ctx)
         cases, tables = fm.result()
         small = fl.result()
+        recs = fc.result()
+    ncases = len(cases)
+    cases = merge(tables, cases, recs)
     walks = walks_of(ctx, ctx.pick(300, 3000))
     tpath = ctx.write_ndjson("tables.json", [tables])
     cpath = ctx.write_ndjson("cases.ndjson", cases)
@@ -151,9 +232,12 @@ def run(ctx, replay=None):
         fh.result()
     # the two harness runs finish in any order: report the differences of the case replay first, then those of the histories
     ctx.violations.sort(key=lambda v: v["fingerprint"].startswith(("history:", "purity:", "race:")))
-    ctx.exhaustive = {"domain": "28 base chains (+7 submitted unperturbed) x %s x 7 trusted pools; 2160 option combinations x 2 endpoints "
-                                "evaluated by TLC in every state" % ctx.pick("every single perturbation", "one or two stacked perturbations"),
-                      "states": len(cases),
+    ctx.exhaustive = {"domain": "33 base chains (+7 submitted unperturbed) x %s x 7 trusted pools, x 4 decoy pools (%s); 2160 option "
+                                "combinations x 2 endpoints evaluated by TLC in every state; %d configurations as written (EKU lists of up to %d "
+                                "names over 5, forbidden-extension lists of up to 2) x 11 chains" % (
+                                    ctx.pick("every single perturbation", "one or two stacked perturbations"),
+                                    ctx.pick("unperturbed, drop, swap, forge", "every single perturbation"), len(recs), ctx.pick(3, 4)),
+                      "states": ncases + len(recs),
                       "history": "%s: %d states (two logs x %s configurations, five chains, clock 3..6), all laws; %d random "
                                  "walks replayed" % (ctx.pick("ChainAdmissionLogSmall.cfg", "ChainAdmissionLogBig.cfg"), small,
                                                      ctx.pick("five", "sixteen"), len(walks))}
